@@ -66,12 +66,14 @@ type HarnessSpec struct {
 	Bound     string            `json:"bound,omitempty"`
 	Stubs     []string          `json:"stubs,omitempty"`
 	NoReplay  bool              `json:"no_replay,omitempty"`  // abstract modes: models are candidates only
-	ReplayEntry string          `json:"replay_entry,omitempty"` // native function that rebuilds inputs from the model (harnesses with havoc cuts)
+	ReplayEntry string          `json:"replay_entry,omitempty"`
+	RaceEntry string            `json:"race_entry,omitempty"` // native function run under the race detector to confirm an effect finding // native function that rebuilds inputs from the model (harnesses with havoc cuts)
 	Validate  int               `json:"validate,omitempty"`   // number of concrete translator-validation inputs
 	Renames   map[string]string `json:"renames,omitempty"`    // callee full name -> harness function name
 	EffectsOf []string          `json:"effects_of,omitempty"` // C20: report stores to pre-existing memory
 	Params    map[string]int    `json:"params,omitempty"`     // concrete parameters passed to the entry (lengths etc.)
 	LoopAssume map[string]int   `json:"loop_assume,omitempty"` // function name -> iteration bound taken as an ASSUMPTION (stated bound)
+	BigBytesHavoc int           `json:"big_bytes_havoc,omitempty"` // big.Int.Bytes() of a symbolic value: fresh slice of this length, arbitrary content (effect analysis)
 	BigShared bool              `json:"big_shared,omitempty"` // math/big storage-sharing model: struct copies of a big.Int share the limbs
 	External  []string          `json:"external,omitempty"`  // package path prefixes treated as uninterpreted
 	Contracts map[string]Contract `json:"contracts,omitempty"` // per external function: which pointer arguments it writes
@@ -364,6 +366,7 @@ func newMachine(prog *ssa.Program, h HarnessSpec) *Machine {
 	m.loopAssume = h.LoopAssume
 	m.externalPkgs = h.External
 	m.bigShared = h.BigShared
+	m.bigBytesHavoc = h.BigBytesHavoc
 	m.contracts = h.Contracts
 	return m
 }
